@@ -145,8 +145,7 @@ class SymNP:
         if (not self._sfa and not is_symbolic(value)) or isinstance(value, (str, bytes)) or value is None:
             return _np.full(shape, value, dtype=dtype)
         if k in ("b",) and not is_symbolic(value):
-            out = _np.full(shape, value, dtype=dtype)
-            return out.astype(object).view(A.SymArray)
+            return _np.full(shape, value, dtype=dtype)  # boolean masks stay real arrays (usable as indices)
         if k in ("U", "S"):
             return _np.full(shape, value, dtype=dtype)
         out = _np.empty(shape, dtype=object)
